@@ -302,6 +302,8 @@ class NumExec:
         return s.binop(e.op, s.ev(p, e.left), s.ev(p, e.right), e, p)
 
     def binop(s, op, l, r, e, p):
+        if isinstance(op, (ast.BitAnd, ast.BitOr, ast.BitXor)) and all(isinstance(v, int) and not isinstance(v, bool) for v in (l, r)):
+            return {ast.BitAnd: l & r, ast.BitOr: l | r, ast.BitXor: l ^ r}[type(op)]       # bit masks of state machines: concrete ints
         if isinstance(op, (ast.BitAnd, ast.BitOr, ast.BitXor)):
             a, b = s.boo(l, e), s.boo(r, e)
             f = {ast.BitAnd: z3.And, ast.BitOr: z3.Or, ast.BitXor: z3.Xor}[type(op)]
